@@ -132,29 +132,19 @@ Proof.
     destruct (has_dose s); [cbn [filter]; destruct (r_amt r =? 0); reflexivity|]. reflexivity.
 Qed.
 
-Lemma squeeze_series l : length l <> 1%nat -> squeeze l = Series l.
-Proof. destruct l as [|[[a b] c] [|y l]]; cbn; intros H; try reflexivity. congruence. Qed.
+Lemma obs_spec_lemma d : obs_impl d = Series (obs_walk (ds_sch d) (ds_rows d)).
+Proof. unfold obs_impl, squeeze. rewrite obs_walk_filter. reflexivity. Qed.
 
-Lemma obs_spec_lemma d : guard_obs_count d = true -> obs_impl d = Series (obs_walk (ds_sch d) (ds_rows d)).
-Proof.
-  unfold guard_obs_count, obs_impl. intros G. rewrite obs_walk_filter. apply squeeze_series.
-  rewrite map_length. apply negb_true_iff in G. apply Nat.eqb_neq in G. exact G.
-Qed.
-
-Lemma nobs_spec_lemma d : guard_obs_count d = true ->
-  nobs_impl d = Ok (Z.of_nat (length (obs_walk (ds_sch d) (ds_rows d)))).
-Proof. intros G. unfold nobs_impl. rewrite (obs_spec_lemma d G). reflexivity. Qed.
+Lemma nobs_spec_lemma d : nobs_impl d = Ok (Z.of_nat (length (obs_walk (ds_sch d) (ds_rows d)))).
+Proof. unfold nobs_impl. rewrite (obs_spec_lemma d). reflexivity. Qed.
 
 Lemma doses_walk_filter rows :
   doses_walk rows = map (fun r => (r_id r, r_time r, r_amt r)) (filter (fun r => negb (r_amt r =? 0)) rows).
 Proof. induction rows as [|r l IH]; cbn [doses_walk filter]; [reflexivity|]. rewrite IH. destruct (r_amt r =? 0); reflexivity. Qed.
 
-Lemma doses_spec_lemma d : has_dose (ds_sch d) = true -> guard_dose_count d = true ->
+Lemma doses_spec_lemma d : has_dose (ds_sch d) = true ->
   doses_impl d = Ok (Series (doses_walk (ds_rows d))).
-Proof.
-  unfold guard_dose_count, doses_impl. intros Hd G. rewrite Hd, doses_walk_filter. f_equal. apply squeeze_series.
-  rewrite map_length. apply negb_true_iff in G. apply Nat.eqb_neq in G. exact G.
-Qed.
+Proof. unfold doses_impl, squeeze. intros Hd. rewrite Hd, doses_walk_filter. reflexivity. Qed.
 
 (* ================================================================== baselines ================ *)
 Lemma baselines_spec_gen rows : forall rp seen,
